@@ -168,3 +168,14 @@ Proof.
 Qed.
 
 Definition tab_get_nat (l : list (list nat)) : nat -> list nat := fun i => nth i l [].
+
+Fixpoint nodupb (l : list nat) : bool :=
+  match l with [] => true | x :: l' => negb (memb x l') && nodupb l' end.
+
+Lemma nodupb_spec l : nodupb l = true <-> NoDup l.
+Proof.
+  induction l as [|x l IH]; simpl; [split; [constructor|reflexivity]|].
+  rewrite andb_true_iff, negb_true_iff, memb_false, IH. split.
+  - intros [H1 H2]. constructor; auto.
+  - intros H. inversion H; auto.
+Qed.
